@@ -236,3 +236,15 @@ Lemma w_exact_liveness_shape :
   map it_now (firstn 5 w_exact_its) = [1000000; 1000145; 1000395; 1000645; 1000895] /\
   map (fun ks => s_status (snd ks)) (d_svcs (state_after w_exact_ifs w_exact_its 5)) = [[(2, SAnnounced)]].
 Proof. repeat split; vm_compute; reflexivity. Qed.
+
+(* ---- round 10: w_exact before and after the announcing iteration ---------------------------------------------
+   before T + 750 (= +895 ms): status Probing, nothing active on the interface; afterwards the four
+   records are active under the two names and the second announcement is queued for T + 1750 and sent *)
+Lemma w_exact_before_after :
+  map (fun kr => map fst (rg_active (snd kr))) (d_regs (state_after w_exact_ifs w_exact_its 4)) = [[]] /\
+  map (fun ks => s_status (snd ks)) (d_svcs (state_after w_exact_ifs w_exact_its 4)) = [[(2, SProbing)]] /\
+  map (fun kr => map (fun np => (fst np, length (snd np))) (rg_active (snd kr))) (d_regs (state_after w_exact_ifs w_exact_its 5))
+  = [[(n_inst, 2%nat); (n_host, 1%nat)]] /\
+  queue_times (state_after w_exact_ifs w_exact_its 5) = [1001895] /\
+  sends_announcement (outs_of w_exact_ifs w_exact_its 5) = true.
+Proof. repeat split; vm_compute; reflexivity. Qed.
